@@ -3,17 +3,39 @@
 The kastore layout of every dumped file is parsed independently (64-byte header, 64-byte descriptors, key block,
 8-aligned arrays) so that every byte offset is classified as header field / header reserved / descriptor field /
 descriptor reserved / key / padding / column data.  Faults:
-  truncate   : EVERY proper prefix, for tskit.load and TableCollection.load (and object k of a multi-object stream)
+  truncate   : EVERY proper prefix, for tskit.load and TableCollection.load (and object k of a multi-object stream); torn
+               writes (right length, zeros from offset n on) at every array start and sampled offsets
   structural : every byte of header+descriptors+keys x {^0x01, ^0x80, =0x00, =0xFF}
-  arith      : arithmetic-aware multi-byte edits of num_items, file_size, key_start/len, array_start/len
+  arith      : arithmetic-aware multi-byte edits of num_items, file_size, key_start/len, array_start/len; two-field edits
+               (num_items=0 with file_size=64, file_size+k with k bytes appended, file_size-k with k bytes cut, both index
+               arrays resized inside their alignment padding)
   data       : random 1-8 byte edits inside column data and padding
   typed      : every numeric array item (sequence_length, coordinates, times, ids, flags, offsets, index) gets its first /
                middle / last element replaced by the special values of its type (NaN with either sign and several payloads,
                +-inf, 0, -0.0, negative, denormal, largest double; -1, -2, n, n+1, INT_MAX, INT_MIN; 0 / all-ones for
                unsigned), through every loader
+  boundary   : EXACT boundary values computed from the file itself in (nearly) every element: ids equal to the row count
+               of the table they refer to (and +-1), offsets equal to the data length (+-1), coordinates equal to
+               sequence_length / one ulp above / below, to the other end of their own interval, to a neighbouring element,
+               times equal to another node's time (parent == child), one ulp either side of the stored value, adjacent
+               elements exchanged
+  repack     : one item removed / stored under another type / resized / duplicated / mis-ordered, whole tables shortened or
+               extended consistently, both index arrays resized, columns exchanged - and the file RE-PACKED by an
+               independent kastore writer so that all kastore-level checks pass and the tskit-level format checks decide;
+               every offset column as uint64 (the TSK_DUMP_FORCE_OFFSET_64 encoding) must load equal
+  stream     : three different objects back to back; truncation / structural / data faults in object 1 or 2 through the
+               eager loaders, the lazy (skip_*) loaders positioned at the object's offset, pipes; the objects before the
+               faulty one still load and compare equal
+  large      : > 65535 rows, > 64 KiB ragged column / blobs: truncation at every array boundary (+-1) and at 2^k sizes,
+               16-bit-aware descriptor edits, offset entries around 65535/65536
 Oracle: prefix -> must raise (EOFError only for the empty prefix); structural -> must raise; data -> raises, or the object
-is well-formed (tskit.load: passes the C02 validity predicate) and dump->load is the identity.
+is well-formed (tskit.load: passes the C02 validity predicate) and dump->load is the identity; repack -> must raise when the
+format requirements written down in c10_ext.format_reasons are broken, otherwise as for data.
+EITHER zones: which exception class is raised (an OSError 'Illegal seek' from the zip/HDF5 sniffing on a pipe counts as a
+rejection); whether a file with duplicated / mis-ordered / unknown keys loads; whether an optional column may be absent.
+A structural acceptance that is a known by-design mechanism must STILL be a well-formed object.
 """
+import math
 import os
 import pathlib
 import struct
@@ -24,8 +46,9 @@ import tskit
 
 from lib import gen
 from lib.harness import case_rng
+from lib.props import c10_ext as X
 from lib.props.c02 import reject_reasons
-from lib.tsk import from_tables, tables_bytes, to_tables
+from lib.tsk import tables_bytes, to_tables
 
 ID = "C10"
 HEADER = 64
@@ -63,6 +86,7 @@ class Layout:
                                "key": key, "nbytes": al * TYPE_SIZE[typ] if typ < len(TYPE_SIZE) else 0})
         self.keys_start = HEADER + self.num_items * DESC
         self.keys_end = self.items[-1]["key_start"] + self.items[-1]["key_len"] if self.items else self.keys_start
+        self.by_key = {it["key"]: it for it in self.items}
 
     def classify(self, off):
         """(region, field, item key)"""
@@ -97,22 +121,41 @@ class Layout:
                 return ("data", "data", it["key"])
         return ("padding", "padding", None)
 
+    def array(self, data, key):
+        it = self.by_key[key]
+        return np.frombuffer(data[it["array_start"]:it["array_start"] + it["nbytes"]],
+                             dtype=["<i1", "<u1", "<i2", "<u2", "<i4", "<u4", "<i8", "<u8", "<f4", "<f8"][it["type"]])
 
-def make_file(rng, big=False):
+
+def make_file(rng, big=False, variant=0):
+    """variant (= file number): the optional parts of a file are FORCED on a fixed share of files instead of being left
+    to chance (a loaded machine visits few files): bit 0 reference sequence, bit 1 top-level metadata + schema,
+    bits 0-1 == 3 also url / reference metadata; variant % 8 == 5 is a file whose every table is EMPTY."""
+    if variant % 8 == 5:
+        m = gen.gen_full(rng, max_nodes=3, max_bp=1, max_sites=1)  # keeps RNG use comparable; only L is used
+        from lib.model import RowModel
+        m = RowModel(m.L)
+        tc = to_tables(m)
+        if variant % 16 == 5:
+            tc.provenances.add_row("{}", timestamp="2020")
+        tc.build_index()
+        return m, tc
     m = gen.gen_full(rng, max_nodes=10 if big else 6, max_bp=4 if big else 2, max_sites=4 if big else 2, pops=True,
                      migrations=rng.random() < 0.6, meta=rng.random() < 0.7)
     tc = to_tables(m)
-    if rng.random() < 0.5:
+    if variant & 2:
         tc.metadata_schema = tskit.MetadataSchema({"codec": "json"})
         tc.metadata = {"a": rng.randint(0, 99)}
     if rng.random() < 0.5:
         tc.nodes.metadata_schema = tskit.MetadataSchema(None)
     if rng.random() < 0.4:
         tc.time_units = rng.choice(["generations", "years", "x"])
-    if rng.random() < 0.5:
+    if variant & 1:
         tc.reference_sequence.data = "ACGT" * rng.randint(0, 3) + "A" * rng.randint(0, 3)
-        if rng.random() < 0.5:
+        if variant & 2:
             tc.reference_sequence.url = "http://x"
+            tc.reference_sequence.metadata_schema = tskit.MetadataSchema({"codec": "json"})
+            tc.reference_sequence.metadata = {"r": rng.randint(0, 9)}
     if rng.random() < 0.7:
         tc.provenances.add_row("{}", timestamp="2020")
     tc.build_index()
@@ -140,6 +183,14 @@ LOADERS = {
     "TableCollection.load(fileobj)": lambda p: _with_file(p, tskit.TableCollection.load),
     "tskit.load(pathlib)": lambda p: tskit.load(pathlib.Path(p)),
 }
+REUSED = "TableCollection.load(_tskit low-level,reused object)"
+# every loader form: the ten above, the audit's argument forms / entry points (c10_ext), and the re-used low-level object
+ALL = {name: (fn, "path") for name, fn in LOADERS.items()}
+ALL.update(X.EXTRA_LOADERS)
+ALL[REUSED] = (None, "reused")
+ALL_NAMES = list(ALL)
+# read paths that work on a non-seekable stream are the eager ones only (the lazy path documents that it needs seeking)
+TS_NAMES = [n for n in ALL_NAMES if X.is_ts_loader(n) and "skip_tables" not in n]
 
 
 def _with_file(p, fn):
@@ -147,38 +198,77 @@ def _with_file(p, fn):
         return fn(f)
 
 
+QUICK_FILES = 24
+KINDS = ["repack", "boundary", "typed", "stream", "arith", "data", "truncate",
+         "structural:1", "structural:128", "structural:zero", "structural:ff"]
+
+
 def cases(tier, seed):
-    nfiles = 24 if tier == "quick" else 1500
-    kinds = ["truncate", "structural:1", "structural:128", "structural:zero", "structural:ff", "arith", "data", "stream", "typed"]
+    nfiles = QUICK_FILES if tier == "quick" else 1500
     for f in range(nfiles):
-        for kind in kinds:
+        if f % 6 == 1:
+            yield {"gen": "large", "file": f, "kind": "large"}
+        # rotate the order so that no worker shard (idx % nshards) keeps meeting the same kind
+        r = f % len(KINDS)
+        for kind in KINDS[r:] + KINDS[:r]:
             yield {"gen": "file", "file": f, "kind": kind}
 
 
 class Tester:
+    STEP_EVERY = 16  # the journal is a file write; one entry names a batch of loads (the replay re-runs the whole case)
+
     def __init__(self, ctx, case, rng):
         self.ctx = ctx
         self.case = case
         self.rng = rng
         self.fd, self.path = tempfile.mkstemp(dir=SHM, suffix=".trees")
         os.close(self.fd)
+        self.good = None
+        self.nsteps = 0
+        self.loaders = ALL_NAMES
+
+    def set_good(self, data):
+        fd, self.good = tempfile.mkstemp(dir=SHM, suffix=".good.trees")
+        with os.fdopen(fd, "wb") as f:
+            f.write(data)
 
     def close(self):
-        try:
-            os.unlink(self.path)
-        except OSError:
-            pass
+        for p in (self.path, self.good):
+            try:
+                if p:
+                    os.unlink(p)
+            except OSError:
+                pass
+
+    def step(self, desc):
+        if self.nsteps % self.STEP_EVERY == 0:
+            self.ctx.step(f"{desc} [and the {self.STEP_EVERY - 1} loads after it]")
+        self.nsteps += 1
 
     def load(self, data, loader):
         """returns ('raised', exc) or ('returned', obj)"""
-        with open(self.path, "wb") as f:
-            f.write(data)
+        fn, takes = ALL[loader]
+        if takes != "data":
+            with open(self.path, "wb") as f:
+                f.write(data)
         self.ctx.count("loads")
         try:
-            obj = LOADERS[loader](self.path)
-            return "returned", obj
+            if takes == "path":
+                obj = fn(self.path)
+            elif takes == "data":
+                obj = fn(data)
+            else:
+                obj = X.ll_reused(self.path, self.good)
         except Exception as e:  # noqa: BLE001 - any exception is a rejection
             return "raised", e
+        want = tskit.TreeSequence if X.is_ts_loader(loader) else tskit.TableCollection
+        if not isinstance(obj, want):
+            # neither an exception nor the documented return type (e.g. None after a swallowed error)
+            self.ctx.violation("loader-returned-non-object/" + loader.split("(")[0],
+                               f"{loader} returned {obj!r} instead of raising or returning a {want.__name__} "
+                               f"for a {len(data)}-byte input")
+            return "raised", TypeError("non-object")
+        return "returned", obj
 
 
 def tables_of(obj):
@@ -222,28 +312,47 @@ def offsets_ok(tc):
     return None
 
 
+def columns_ok(tc):
+    """Every fixed-width column has exactly num_rows entries (read through the raw accessors)."""
+    for tname, cols in (("nodes", ["flags", "time", "population", "individual"]), ("edges", ["left", "right", "parent", "child"]),
+                        ("sites", ["position"]), ("mutations", ["site", "node", "parent", "time"]),
+                        ("individuals", ["flags"]), ("migrations", ["left", "right", "node", "source", "dest", "time"])):
+        t = getattr(tc, tname)
+        for c in cols:
+            if len(getattr(t, c)) != t.num_rows:
+                return f"{tname}.{c} has {len(getattr(t, c))} entries for {t.num_rows} rows"
+    if tc.has_index():
+        if len(tc.indexes.edge_insertion_order) != tc.edges.num_rows or len(tc.indexes.edge_removal_order) != tc.edges.num_rows:
+            return "index arrays do not have one entry per edge"
+    return None
+
+
 def file_arrays(data):
     lay = Layout(data)
     return {it["key"]: data[it["array_start"]:it["array_start"] + it["nbytes"]] for it in lay.items if it["key"] != "uuid"}
 
 
-def well_formed(t, obj, loader):
+def well_formed(t, obj, loader, large=False):
     """For data-region acceptances: returns None or a reason string."""
-    tc = tables_of(obj)
-    why = offsets_ok(tc)
+    try:
+        tc = tables_of(obj)
+        why = offsets_ok(tc) or columns_ok(tc)
+    except Exception as e:  # noqa: BLE001 - e.g. a column whose recorded length cannot even be allocated
+        return f"columns of the returned object are not readable: {e!r}"
     if why:
         return why
-    try:
-        back = numeric_model(tc)
-    except Exception as e:  # noqa: BLE001
-        return f"numeric columns not readable: {e!r}"
-    if isinstance(obj, tskit.TreeSequence):
+    if isinstance(obj, tskit.TreeSequence) and not large:
+        try:
+            back = numeric_model(tc)
+        except Exception as e:  # noqa: BLE001
+            return f"numeric columns not readable: {e!r}"
         idx = None
         if tc.has_index():
             idx = ([int(x) for x in tc.indexes.edge_insertion_order], [int(x) for x in tc.indexes.edge_removal_order])
         rs = reject_reasons(back, idx)
         if rs:
             return f"tskit.load returned a tree sequence violating {sorted(set(rs))}"
+    if isinstance(obj, tskit.TreeSequence):
         try:
             for tree in obj.trees():
                 tree.num_edges
@@ -272,9 +381,21 @@ def well_formed(t, obj, loader):
     return None
 
 
-def same_as(obj, orig_bytes, loader):
+def snapshot(obj):
+    tc = tables_of(obj)
+    idx = None
+    if tc.has_index():
+        idx = (tc.indexes.edge_insertion_order.tobytes(), tc.indexes.edge_removal_order.tobytes())
+    return tc, idx
+
+
+def same_as(obj, orig, loader):
+    """Does the object equal what the same loader returned for the unmodified file (tables, top level, reference
+    sequence, index)?"""
     try:
-        return file_arrays(dump_bytes(tables_of(obj))) == orig_bytes.get(loader)
+        tc, idx = snapshot(obj)
+        otc, oidx = orig[loader]
+        return bool(tc.equals(otc)) and idx == oidx
     except Exception:  # noqa: BLE001
         return False
 
@@ -285,24 +406,33 @@ def col_class(key):
     return key
 
 
-def on_structural_accept(ctx, lay, off, what, obj, loader, orig_bytes, desc, data, newdata):
+def by_design(ctx, t, key, msg, obj, loader):
+    """A known by-design acceptance (recorded under its mechanism key).  The format having no checksum explains that the
+    alteration goes unnoticed - not a malformed object: that is a violation under its own key."""
+    ctx.violation(key, msg)
+    why = well_formed(t, obj, loader)
+    ctx.count("bydesign-wellformed-checks")
+    if why:
+        ctx.violation("structural-accepted-malformed/" + key.split("/")[1], f"{msg}: {why}")
+
+
+def on_structural_accept(ctx, t, lay, off, what, obj, loader, orig, desc, data, newdata):
     """A structurally altered file loaded. Name the mechanism."""
     region, field, key = lay.classify(off)
     if region in ("header-reserved", "descriptor-reserved"):
-        if same_as(obj, orig_bytes, loader):
+        if same_as(obj, orig, loader):
             ctx.violation(f"structural-accepted/reserved-byte-ignored/{region}", f"{loader}: {desc}: loads equal to the original")
         else:
             ctx.violation(f"structural-accepted/{region}/changed-object", f"{loader}: {desc}: loads as a DIFFERENT object")
         return
-    if region in ("key", "descriptor") and key is not None and (
-            ("skip_tables" in loader and "/" in key and not key.startswith("reference_sequence/"))
-            or ("skip_reference_sequence" in loader and key.startswith("reference_sequence/"))):
-        # this read path never consults the column at all
-        ctx.violation(f"structural-accepted/column-not-read-by-skip-path/{region}", f"{loader}: {desc}")
+    if region in ("key", "descriptor") and key is not None and not X.loader_reads(key, loader):
+        # this read path never consults the column at all (format/* and the top-level items are always read)
+        by_design(ctx, t, f"structural-accepted/column-not-read-by-skip-path/{region}", f"{loader}: {desc}", obj, loader)
         return
     if region == "key":
         if key in OPTIONAL_KEYS:
-            ctx.violation(f"structural-accepted/optional-column-key-renamed/{key}", f"{loader}: {desc}: optional column silently dropped")
+            by_design(ctx, t, f"structural-accepted/optional-column-key-renamed/{key}",
+                      f"{loader}: {desc}: optional column silently dropped", obj, loader)
         else:
             ctx.violation(f"structural-accepted/key/{key}", f"{loader}: {desc}")
         return
@@ -322,57 +452,80 @@ def on_structural_accept(ctx, lay, off, what, obj, loader, orig_bytes, desc, dat
         # columns (stored as uint32 or uint64 by design).  A fixed-width data column has a prescribed type and a length
         # tied to the table's row count, so an edit there must be refused.
         if same_slot and (key in BLOB_KEYS or key.endswith("_offset")):
-            ctx.violation(f"structural-accepted/descriptor-edit-preserves-packing/{field}",
-                          f"{loader}: {desc}: {key} now {it_new['array_len']} x type {it_new['type']} in the same 8-aligned slot")
+            by_design(ctx, t, f"structural-accepted/descriptor-edit-preserves-packing/{field}",
+                      f"{loader}: {desc}: {key} now {it_new['array_len']} x type {it_new['type']} in the same 8-aligned slot",
+                      obj, loader)
             return
     ctx.violation(f"structural-accepted/{region}/{field}/{col_class(key)}", f"{loader}: {desc}")
 
 
+def baseline(ctx, t, data, loaders):
+    orig = {}
+    for ld in loaders:
+        st, obj = t.load(data, ld)
+        if st != "returned":
+            ctx.violation("baseline/unmodified-file-rejected", f"{ld} rejected an unmodified dump: {obj!r}")
+            return None
+        orig[ld] = snapshot(obj)
+    return orig
+
+
 def run_case(case, ctx):
+    if case["kind"] == "large":
+        return do_large(case, ctx)
     rng = case_rng({"file": case["file"], "seed": case["seed"], "tier": case["tier"]})
-    m, tc = make_file(rng, big=case["file"] % 4 == 0)
+    m, tc = make_file(rng, big=case["file"] % 4 == 0, variant=case["file"])
     data = dump_bytes(tc)
     lay = Layout(data)
     assert lay.file_size == len(data)
+    assert X.pack(X.parse_items(data)) == data, "independent kastore writer does not reproduce dump()'s bytes"
     kind = case["kind"]
     ctx.sig((m.signature(), kind, len(data)), nontrivial=True)
     ctx.feature("kind:" + kind.split(":")[0])
+    for tag, on in (("refseq", tc.has_reference_sequence()), ("top-metadata", len(tc.metadata_bytes) > 0),
+                    ("all-tables-empty", tc.nodes.num_rows == 0), ("migrations", tc.migrations.num_rows > 0)):
+        if on:
+            ctx.feature("file:" + tag)
     if case["file"] < 1 and kind == "truncate":
         ctx.sample({"case": case, "file_size": len(data), "num_items": lay.num_items, "keys": [it["key"] for it in lay.items][:12]})
     t = Tester(ctx, case, case_rng(case))
     try:
-        orig_bytes = {}
-        for ld in LOADERS:
-            st, obj = t.load(data, ld)
-            if st != "returned":
-                ctx.violation("baseline/unmodified-file-rejected", f"{ld} rejected an unmodified dump: {obj!r}")
-                return
-            orig_bytes[ld] = file_arrays(dump_bytes(tables_of(obj)))
+        t.set_good(data)
+        orig = baseline(ctx, t, data, ALL_NAMES)
+        if orig is None:
+            return
         if kind == "truncate":
+            do_torn(ctx, t, data, lay)
             do_truncate(ctx, t, data, lay)
         elif kind.startswith("structural"):
-            do_structural(ctx, t, data, lay, kind.split(":")[1], orig_bytes)
+            do_structural(ctx, t, data, lay, kind.split(":")[1], orig)
         elif kind == "arith":
-            do_arith(ctx, t, data, lay, orig_bytes)
+            do_arith(ctx, t, data, lay, orig)
         elif kind == "data":
-            do_data(ctx, t, data, lay, orig_bytes)
+            do_data(ctx, t, data, lay, orig)
         elif kind == "typed":
             do_typed(ctx, t, data, lay)
+        elif kind == "boundary":
+            do_boundary(ctx, t, data, lay)
+        elif kind == "repack":
+            do_repack(ctx, t, data, lay, orig)
         else:
-            do_stream(ctx, t, data, lay, tc)
+            do_stream(ctx, t, data, lay, tc, case)
     finally:
         t.close()
 
 
 def do_truncate(ctx, t, data, lay):
-    loaders = list(LOADERS)  # eager and lazy (skip_tables / skip_reference_sequence) read paths
+    loaders = ALL_NAMES  # eager and lazy (skip_tables / skip_reference_sequence) read paths, every argument form
     for n in range(len(data)):
         # every loader near both ends of the file (header / last item), one loader in rotation elsewhere
         ld = loaders[n % len(loaders)] if 200 < n < len(data) - 80 else None
         for loader in ([ld] if ld else loaders):
-            ctx.step(f"truncate to {n} of {len(data)} bytes; {loader}")
+            t.step(f"truncate to {n} of {len(data)} bytes; {loader}")
             st, obj = t.load(data[:n], loader)
             ctx.count("truncations")
+            if "pipe" in loader or "socket" in loader:
+                ctx.count("truncations-nonseekable")
             if st == "returned":
                 ctx.violation("truncated-accepted/" + lay.classify(n)[0], f"{loader} loaded a {n}-byte prefix of a {len(data)}-byte file")
             elif n > 0 and isinstance(obj, EOFError):
@@ -381,33 +534,64 @@ def do_truncate(ctx, t, data, lay):
                 ctx.count("empty-prefix-non-eof")
 
 
+def do_torn(ctx, t, data, lay):
+    """A write that stopped after the file had been extended: the right length, but zeros from offset n on.  Zeros inside
+    the header / descriptors / keys always destroy a required key (uuid is the last one) -> must raise; zeros from inside
+    the arrays on -> data-region rule."""
+    rng = t.rng
+    cuts = sorted({0, 8, 16, 24, 64, 65, lay.keys_start, lay.keys_end - 1, lay.keys_end, len(data) - 36, len(data) - 1}
+                  | {it["array_start"] for it in lay.items if it["nbytes"]} | {rng.randrange(len(data)) for _ in range(24)})
+    for k, n in enumerate(c for c in cuts if 0 <= c < len(data)):
+        newdata = data[:n] + bytes(len(data) - n)
+        if newdata == data:
+            continue
+        loader = ALL_NAMES[(k + n) % len(ALL_NAMES)]
+        t.step(f"torn write: zeros from byte {n} to the end of a {len(data)}-byte file; {loader}")
+        st, obj = t.load(newdata, loader)
+        ctx.count("torn-writes")
+        if st != "returned":
+            continue
+        if n < lay.keys_end:
+            ctx.violation("torn-write-accepted/" + lay.classify(n)[0], f"{loader}: zeros from byte {n} (inside {lay.classify(n)}) to the end: file loaded")
+        else:
+            why = well_formed(t, obj, loader)
+            ctx.count("data-accepted-wellformed-checks")
+            if why:
+                ctx.violation("torn-write-accepted-malformed", f"{loader}: zeros from byte {n} ({lay.classify(n)}) to the end: {why}")
+
+
 PATTERNS = {"1": lambda b: b ^ 0x01, "128": lambda b: b ^ 0x80, "zero": lambda b: 0, "ff": lambda b: 0xFF}
 
 
-def do_structural(ctx, t, data, lay, pat, orig_bytes):
+def do_structural(ctx, t, data, lay, pat, orig):
     fn = PATTERNS[pat]
-    loaders = list(LOADERS)
+    loaders = ALL_NAMES
+    rot = {"1": 0, "128": 7, "zero": 13, "ff": 19}[pat]  # the four patterns meet a byte through different loaders
     for off in range(lay.keys_end):
         nb = fn(data[off])
         if nb == data[off]:
             continue
         newdata = data[:off] + bytes([nb]) + data[off + 1:]
-        loader = loaders[off % len(loaders)] if off % 3 else "TableCollection.load"
+        loader = loaders[(off + rot) % len(loaders)] if off % 3 else "TableCollection.load"
         region, field, key = lay.classify(off)
+        if region == "descriptor-reserved" and pat in ("128", "ff") and (off + t.case["file"] + rot) % 3:
+            # reserved descriptor bytes (half of the structural region, a known by-design acceptance): every byte with
+            # ^0x01 (and =0x00 where non-zero), a rotating third with the other two patterns
+            continue
         desc = f"byte {off} ({region}/{field}/{key}) {data[off]:#04x}->{nb:#04x} in a {len(data)}-byte file"
-        ctx.step(f"structural: {desc}; {loader}")
+        t.step(f"structural: {desc}; {loader}")
         st, obj = t.load(newdata, loader)
         ctx.count("structural-edits")
         ctx.feature("region:" + region)
         if st == "returned":
-            on_structural_accept(ctx, lay, off, pat, obj, loader, orig_bytes, desc, data, newdata)
+            on_structural_accept(ctx, t, lay, off, pat, obj, loader, orig, desc, data, newdata)
 
 
 def put(data, off, fmt, v):
     return data[:off] + struct.pack(fmt, v & (2 ** (8 * struct.calcsize(fmt)) - 1)) + data[off + struct.calcsize(fmt):]
 
 
-def do_arith(ctx, t, data, lay, orig_bytes):
+def do_arith(ctx, t, data, lay, orig):
     edits = []
     for d in (-1, 1, 2, -lay.num_items, 2 ** 31, 2 ** 32 - lay.num_items):
         edits.append((12, "<I", lay.num_items + d, "num_items"))
@@ -427,17 +611,17 @@ def do_arith(ctx, t, data, lay, orig_bytes):
         for v in range(0, 12):
             if v != it["type"]:
                 edits.append((base, "<B", v, "type"))
-    loaders = list(LOADERS)
+    loaders = ALL_NAMES
     for k, (off, fmt, v, fld) in enumerate(edits):
         newdata = put(data, off, fmt, v)
         loader = loaders[k % len(loaders)]
         region, field, key = lay.classify(off)
         desc = f"{fld} of {key} at {off} set to {v % 2 ** 64:#x} in a {len(data)}-byte file"
-        ctx.step(f"arith: {desc}; {loader}")
+        t.step(f"arith: {desc}; {loader}")
         st, obj = t.load(newdata, loader)
         ctx.count("arith-edits")
         if st == "returned":
-            on_structural_accept(ctx, lay, off, "arith", obj, loader, orig_bytes, desc, data, newdata)
+            on_structural_accept(ctx, t, lay, off, "arith", obj, loader, orig, desc, data, newdata)
     # swap two descriptors / duplicate a key
     if lay.num_items >= 2:
         a = HEADER
@@ -447,12 +631,45 @@ def do_arith(ctx, t, data, lay, orig_bytes):
         ctx.count("arith-edits")
         if st == "returned":
             ctx.violation("structural-accepted/descriptor-swap", "descriptors 0 and 1 swapped, file loaded")
+    # two fields (or a field and the file's real length) changed consistently with each other
+    combos = [("num_items=0 and file_size=64, rest of the file left in place", put(put(data, 12, "<I", 0), 16, "<Q", 64)),
+              ("num_items=0, file_size=64 and the file cut to its 64-byte header", put(put(data, 12, "<I", 0), 16, "<Q", 64)[:64])]
+    for k in (1, 7, 8, 64):
+        combos.append((f"file_size+{k} with {k} zero bytes appended", put(data, 16, "<Q", lay.file_size + k) + bytes(k)))
+        combos.append((f"{k} bytes appended, header unchanged", None if k != 8 else data + bytes(k)))
+        combos.append((f"file_size-{k} with the last {k} bytes cut", put(data, 16, "<Q", lay.file_size - k)[:-k]))
+    ia, ib = lay.by_key.get("indexes/edge_insertion_order"), lay.by_key.get("indexes/edge_removal_order")
+    if ia and ib and ia["array_len"] > 0:
+        n = ia["array_len"]
+        new = n + 1 if n % 2 else n - 1  # stays inside the same 8-aligned slot of an int32 array
+        nd = put(put(data, HEADER + ia["j"] * DESC + 32, "<Q", new), HEADER + ib["j"] * DESC + 32, "<Q", new)
+        combos.append((f"array_len of BOTH index arrays {n}->{new} (same aligned slot, {n} edges)", nd))
+    for k, (desc, newdata) in enumerate(combos):
+        if newdata is None:
+            continue
+        for loader in (loaders[(3 * k) % len(loaders)], "TableCollection.load", "tskit.load(fileobj)", "tskit.load(pipe fd)",
+                       "tskit.load(skip_tables)"):
+            t.step(f"arith-combo: {desc}; {loader}")
+            st, obj = t.load(newdata, loader)
+            ctx.count("arith-combo-edits")
+            if st != "returned":
+                continue
+            if "appended, header unchanged" in desc:
+                # bytes after the end of a complete store are the next object of a stream, not part of this one
+                if not same_as(obj, orig, loader):
+                    ctx.violation("trailing-bytes/changed-object", f"{loader}: {desc}: loads as a different object")
+                continue
+            if "index arrays" in desc and "skip_tables" in loader:
+                continue  # the index items are not read on this path (known by-design class, nothing to add)
+            ctx.violation("structural-accepted/two-field-edit/" + desc.split(" ")[0].split("=")[0].split("+")[0].split("-")[0],
+                          f"{loader}: {desc}: file loaded")
 
 
 def do_offsets(ctx, t, data, lay):
     """Systematic part of the data-region workload: every ragged offset column (also of EMPTY ragged columns, whose
     entries must all be zero) gets its first, second and last entries altered."""
-    loaders = ["TableCollection.load", "tskit.load", "TableCollection.load(skip_reference_sequence)"]
+    loaders = ["TableCollection.load", "tskit.load", "TableCollection.load(skip_reference_sequence)",
+               "TableCollection.load(_tskit low-level)", "TableCollection.load(pipe fileobj)", REUSED]
     k = 0
     for it in lay.items:
         if not it["key"].endswith("_offset") or it["array_len"] == 0:
@@ -468,7 +685,7 @@ def do_offsets(ctx, t, data, lay):
                 loader = loaders[k % len(loaders)]
                 k += 1
                 desc = f"entry {idx} of {it['key']} ({n} entries) {cur}->{new}"
-                ctx.step(f"offsets: {desc}; {loader}")
+                t.step(f"offsets: {desc}; {loader}")
                 st, obj = t.load(newdata, loader)
                 ctx.count("offset-edits")
                 if st == "returned":
@@ -478,12 +695,16 @@ def do_offsets(ctx, t, data, lay):
                         ctx.violation(f"data-accepted-malformed/{it['key']}", f"{loader}: {desc}: {why}")
 
 
-def do_data(ctx, t, data, lay, orig_bytes):
+def do_data(ctx, t, data, lay, orig):
     do_offsets(ctx, t, data, lay)
     rng = t.rng
     n = 300
-    loaders = ["tskit.load", "TableCollection.load", "tskit.load", "TableCollection.load(skip_reference_sequence)"]
+    loaders = ["tskit.load", "TableCollection.load", "tskit.load", "TableCollection.load(skip_reference_sequence)",
+               "tskit.load(int fd)", "TableCollection.load(raw fileobj)", "tskit.load(socket)", "TreeSequence.load",
+               "tskit.load(_tskit low-level)"]
     start = lay.keys_end
+    if start >= len(data):
+        return
     for k in range(n):
         off = rng.randrange(start, len(data))
         ln = rng.choice([1, 1, 2, 4, 8])
@@ -504,7 +725,7 @@ def do_data(ctx, t, data, lay, orig_bytes):
         loader = loaders[k % len(loaders)]
         region, field, key = lay.classify(off)
         desc = f"{ln} bytes at {off} ({region}/{key}) {data[off:off + ln].hex()}->{bytes(chunk).hex()}"
-        ctx.step(f"data: {desc}; {loader}")
+        t.step(f"data: {desc}; {loader}")
         st, obj = t.load(newdata, loader)
         ctx.count("data-edits")
         ctx.feature("data-outcome:" + st)
@@ -541,7 +762,7 @@ def typed_values(typ, n_hint):
 def do_typed(ctx, t, data, lay):
     """Typed special values in every numeric array of the data region.  Same oracle as for random data edits: the
     loader raises, or what it returns is well formed and round-trips."""
-    loaders = list(LOADERS)
+    loaders = ALL_NAMES
     k = t.rng.randrange(len(loaders))
     n_hint = max((it["array_len"] for it in lay.items), default=0)
     for it in lay.items:
@@ -560,7 +781,7 @@ def do_typed(ctx, t, data, lay):
                 loader = loaders[k % len(loaders)]
                 k += 1
                 desc = f"element {idx} of {it['key']} ({n} x type {typ}) {data[off:off + size].hex()}->{val.hex()}"
-                ctx.step(f"typed: {desc}; {loader}")
+                t.step(f"typed: {desc}; {loader}")
                 st, obj = t.load(newdata, loader)
                 ctx.count("typed-edits")
                 ctx.feature(f"typed:{it['key']}:{st}")
@@ -571,31 +792,479 @@ def do_typed(ctx, t, data, lay):
                         ctx.violation(f"data-accepted-malformed/{it['key']}", f"{loader}: {desc}: {why}")
 
 
-def do_stream(ctx, t, data, lay, tc):
-    """Three objects back-to-back; faults in object 1: objects before it still load, the faulty one raises."""
+# which table's row count bounds the ids stored in a column (data-model documentation)
+ID_REFERS = {"edges/parent": "nodes", "edges/child": "nodes", "mutations/node": "nodes", "mutations/site": "sites",
+             "mutations/parent": "mutations", "nodes/population": "populations", "nodes/individual": "individuals",
+             "individuals/parents": "individuals", "migrations/node": "nodes", "migrations/source": "populations",
+             "migrations/dest": "populations", "indexes/edge_insertion_order": "edges", "indexes/edge_removal_order": "edges"}
+ROWS_FROM = {"nodes": "nodes/flags", "edges": "edges/left", "sites": "sites/position", "mutations": "mutations/site",
+             "individuals": "individuals/flags", "migrations": "migrations/left"}
+OTHER_END = {"edges/left": "edges/right", "edges/right": "edges/left", "migrations/left": "migrations/right",
+             "migrations/right": "migrations/left"}
+
+
+def ulp_up(x):
+    return math.nextafter(x, math.inf)
+
+
+def ulp_down(x):
+    return math.nextafter(x, -math.inf)
+
+
+def do_boundary(ctx, t, data, lay):
+    """Exact boundary values, computed from THIS file, in (nearly) every element of every numeric column."""
     rng = t.rng
-    cuts = sorted({0, 1, 7, 8, 63, 64, lay.keys_start, lay.keys_end, len(data) // 2, len(data) - 1}
-                  | {rng.randrange(len(data)) for _ in range(12)})
-    for cut in cuts:
-        stream = data + data[:cut]
+    rows = {tn: lay.by_key[k]["array_len"] for tn, k in ROWS_FROM.items() if k in lay.by_key}
+    if "populations/metadata_offset" in lay.by_key:
+        rows["populations"] = lay.by_key["populations/metadata_offset"]["array_len"] - 1
+    L = float(lay.array(data, "sequence_length")[0])
+    node_times = sorted(set(float(x) for x in lay.array(data, "nodes/time"))) if "nodes/time" in lay.by_key else []
+    edits = []  # (key, idx, raw value bytes, label, wants a tree-sequence loader)
+    for it in lay.items:
+        key, typ, n = it["key"], it["type"], it["array_len"]
+        if n == 0 or typ not in (4, 5, 7, 9) or key in ("format/version",):
+            continue
+        arr = lay.array(data, key)
+        which = list(range(n)) if n <= 6 else sorted({0, 1, n // 2, n - 2, n - 1} | set(rng.sample(range(n), 2)))
+        for idx in which:
+            cur = arr[idx]
+            cand = []
+            if typ == 9:
+                cur = float(cur)
+                cand += [(L, "=L"), (ulp_up(L), "=L+ulp"), (ulp_down(L), "=L-ulp"), (0.0, "=0")]
+                if not math.isnan(cur):
+                    cand += [(ulp_up(cur), "+ulp"), (ulp_down(cur), "-ulp")]
+                if idx > 0:
+                    cand.append((float(arr[idx - 1]), "=previous element"))
+                if idx + 1 < n:
+                    cand.append((float(arr[idx + 1]), "=next element"))
+                if key in OTHER_END:
+                    o = float(lay.array(data, OTHER_END[key])[idx])
+                    cand += [(o, "=other end of the interval"), (ulp_up(o), "=other end+ulp"), (ulp_down(o), "=other end-ulp")]
+                if key in ("nodes/time", "mutations/time", "migrations/time"):
+                    cand += [(x, "=time of a node") for x in node_times]
+                    if key == "mutations/time":
+                        u = int(lay.array(data, "mutations/node")[idx])
+                        if 0 <= u < len(node_times) + 10 ** 9 and u < rows.get("nodes", 0):
+                            tu = float(lay.array(data, "nodes/time")[u])
+                            cand += [(ulp_down(tu), "=time of its node-ulp"), (ulp_up(tu), "=time of its node+ulp")]
+                if key == "sequence_length":
+                    for k2 in ("edges/right", "sites/position"):
+                        if k2 in lay.by_key and lay.by_key[k2]["array_len"]:
+                            mx = float(max(lay.array(data, k2)))
+                            cand += [(mx, f"=max {k2}"), (ulp_down(mx), f"=max {k2}-ulp"), (ulp_up(mx), f"=max {k2}+ulp")]
+                for v, label in cand:
+                    edits.append((it, idx, struct.pack("<d", v), label, True))
+            else:
+                cur = int(cur)
+                size = TYPE_SIZE[typ]
+                lim = 1 << (8 * size)
+                if key in ID_REFERS:
+                    nr = rows.get(ID_REFERS[key], 0)
+                    cand += [(nr, f"=row count of {ID_REFERS[key]}"), (nr - 1, "=last row"), (nr + 1, "=row count+1"),
+                             (-1, "=NULL"), (-2, "=-2"), (0, "=0"), (cur + 1, "+1"), (cur - 1, "-1")]
+                    if key == "mutations/parent":
+                        cand += [(idx, "=itself"), (idx + 1, "=the next mutation")]
+                elif key.endswith("_offset"):
+                    dk = key[:-7]
+                    dl = lay.by_key[dk]["array_len"] if dk in lay.by_key else 0
+                    cand += [(dl, "=data length"), (dl + 1, "=data length+1"), (dl - 1, "=data length-1"), (cur + 1, "+1"),
+                             (cur - 1, "-1"), (0, "=0")]
+                    if idx > 0:
+                        cand.append((int(arr[idx - 1]) - 1, "=previous entry-1"))
+                    if idx + 1 < n:
+                        cand.append((int(arr[idx + 1]) + 1, "=next entry+1"))
+                else:  # flags
+                    cand += [(cur ^ 1, "sample flag toggled"), (cur | 0x80000000, "top bit set"), (lim - 1, "all ones")]
+                for v, label in cand:
+                    if typ == 4 and not (-(1 << 31) <= v < (1 << 31)):
+                        continue
+                    if typ != 4 and not (0 <= v < lim):
+                        continue
+                    edits.append((it, idx, (v % lim).to_bytes(size, "little"), label, key in ID_REFERS))
+        # adjacent elements exchanged (same multiset of values, wrong order)
+        size = TYPE_SIZE[typ]
+        for idx in ([j for j in range(n - 1)] if n <= 7 else sorted({0, n // 2, n - 2})):
+            a = data[it["array_start"] + idx * size: it["array_start"] + (idx + 1) * size]
+            b = data[it["array_start"] + (idx + 1) * size: it["array_start"] + (idx + 2) * size]
+            if a != b:
+                edits.append((it, idx, b + a, "exchanged with the next element", True))
+    if len(edits) > 2200:
+        keep = set(rng.sample(range(len(edits)), 2200))
+        edits = [e for j, e in enumerate(edits) if j in keep]
+    k = rng.randrange(1000)
+    for it, idx, val, label, want_ts in edits:
+        size = TYPE_SIZE[it["type"]]
+        off = it["array_start"] + idx * size
+        if data[off:off + len(val)] == val:
+            continue
+        newdata = data[:off] + val + data[off + len(val):]
+        k += 1
+        # TableCollection.load does not look at ids, coordinates or times: two thirds of those edits go to the loaders that do
+        loader = TS_NAMES[k % len(TS_NAMES)] if (want_ts and k % 3) else ALL_NAMES[k % len(ALL_NAMES)]
+        desc = f"element {idx} of {it['key']} ({it['array_len']} x type {it['type']}) {label}: {data[off:off + len(val)].hex()}->{val.hex()}"
+        t.step(f"boundary: {desc}; {loader}")
+        st, obj = t.load(newdata, loader)
+        ctx.count("boundary-edits")
+        ctx.feature(f"boundary:{label.split(' of ')[0][:28]}:{st}")
+        if st == "returned":
+            why = well_formed(t, obj, loader)
+            ctx.count("data-accepted-wellformed-checks")
+            if why:
+                ctx.violation(f"data-accepted-malformed/{it['key']}", f"{loader}: {desc}: {why}")
+
+
+def do_repack(ctx, t, data, lay, orig):
+    """Items altered and the file re-packed by the independent writer (see c10_ext)."""
+    items = X.parse_items(data)
+    ref_types = {k.decode(): typ for k, typ, _ in items}
+    k = t.rng.randrange(1000)
+    work = []
+    for label, cls, new_items, sort, expect in X.repack_edits(items, ref_types, t.rng):
+        k += 1
+        lds = [ALL_NAMES[k % len(ALL_NAMES)]]
+        if cls.startswith(("index-resize", "table-", "offset64", "drop-pair", "exchange")):
+            # few edits of these classes exist per file: each goes through the plain loaders as well as the rotating one
+            lds += [ld for ld in ("TableCollection.load", "tskit.load(fileobj)", "TableCollection.load(_tskit low-level)") if ld not in lds]
+        for ld in lds:
+            work.append((label, cls, new_items, sort, expect, ld))
+    for label, cls, new_items, sort, expect, loader in work:
+        newdata = X.pack(new_items, sort=sort)
+        reasons = X.format_reasons(new_items, ref_types, OPTIONAL_KEYS, loader) if expect == "model" else []
+        t.step(f"repack: {label}; {loader}")
+        st, obj = t.load(newdata, loader)
+        ctx.count("repack-edits")
+        ctx.feature(f"repack:{cls}:{'must-raise' if reasons else expect}:{st}")
+        if expect == "equal":
+            # uint64 offset columns are the encoding dump() itself uses for big columns (and with TSK_DUMP_FORCE_OFFSET_64)
+            if st == "raised":
+                ctx.violation(f"baseline/valid-encoding-rejected/{cls}", f"{loader}: {label}: {obj!r}")
+            elif not same_as(obj, orig, loader):
+                ctx.violation(f"repack/valid-encoding-loaded-differently/{cls}", f"{loader}: {label}")
+            continue
+        if st != "returned":
+            continue
+        if reasons:
+            r0 = reasons[0]
+            ctx.violation(f"repack-accepted/{r0.split(':')[0]}/{r0.split(':')[1] if ':' in r0 else cls}",
+                          f"{loader}: {label} (file re-packed, {len(newdata)} bytes): loaded although {reasons}")
+            continue
+        ctx.count("repack-accepted-wellformed-checks")
+        why = well_formed(t, obj, loader)
+        if why:
+            ctx.violation(f"repack-accepted-malformed/{cls}", f"{loader}: {label}: {why}")
+    # the same file with 64-bit offsets as a BASE for faults: the uint64 branch of the offset reader
+    base = X.pack(X.to_offset64(items))
+    lay64 = Layout(base)
+    k = 0
+    loaders = ["TableCollection.load", "tskit.load", "TableCollection.load(fileobj)", "tskit.load(pipe fd)",
+               "TableCollection.load(_tskit low-level)", "TableCollection.load(skip_reference_sequence)"]
+    for it in lay64.items:
+        if not it["key"].endswith("_offset") or it["type"] != 7:
+            continue
+        n = it["array_len"]
+        dl = lay64.by_key[it["key"][:-7]]["array_len"]
+        for idx in sorted({0, n // 2, n - 1}):
+            off = it["array_start"] + idx * 8
+            cur = struct.unpack_from("<Q", base, off)[0]
+            for v in (cur + 1, cur + 2 ** 32, dl + 2 ** 32, 2 ** 32, 2 ** 63, 2 ** 64 - 1, 2 ** 63 + cur, (cur - 1) % 2 ** 64):
+                if v == cur:
+                    continue
+                newdata = base[:off] + struct.pack("<Q", v) + base[off + 8:]
+                loader = loaders[k % len(loaders)]
+                k += 1
+                desc = f"entry {idx} of 64-bit {it['key']} ({n} entries, data length {dl}) {cur}->{v:#x}"
+                t.step(f"offset64: {desc}; {loader}")
+                st, obj = t.load(newdata, loader)
+                ctx.count("offset64-edits")
+                if st == "returned":
+                    why = well_formed(t, obj, loader)
+                    ctx.count("data-accepted-wellformed-checks")
+                    if why:
+                        ctx.violation(f"data-accepted-malformed/{it['key']}", f"{loader}: {desc}: {why}")
+    for n in sorted({0, 1, 63, 64, lay64.keys_start, lay64.keys_end, len(base) - 37, len(base) - 1}
+                    | {it["array_start"] + d for it in lay64.items if it["key"].endswith("_offset") for d in (0, 1, 8)}):
+        if not (0 <= n < len(base)):
+            continue
+        loader = ALL_NAMES[n % len(ALL_NAMES)]
+        t.step(f"offset64: truncate to {n} of {len(base)} bytes; {loader}")
+        st, obj = t.load(base[:n], loader)
+        ctx.count("truncations")
+        if st == "returned":
+            ctx.violation("truncated-accepted/offset64-file", f"{loader} loaded a {n}-byte prefix of a {len(base)}-byte file with 64-bit offsets")
+
+
+MUST_RAISE_EDITS = (
+    ("magic byte 0", lambda d, lay: put(d, 0, "<B", d[0] ^ 0x01)),
+    ("magic byte 7", lambda d, lay: put(d, 7, "<B", d[7] ^ 0x80)),
+    ("version_major+1", lambda d, lay: put(d, 8, "<H", 2)),
+    ("version_major=0", lambda d, lay: put(d, 8, "<H", 0)),
+    ("num_items+1", lambda d, lay: put(d, 12, "<I", lay.num_items + 1)),
+    ("num_items-1", lambda d, lay: put(d, 12, "<I", lay.num_items - 1)),
+    ("file_size+1", lambda d, lay: put(d, 16, "<Q", lay.file_size + 1)),
+    ("file_size-1", lambda d, lay: put(d, 16, "<Q", lay.file_size - 1)),
+    ("file_size=size of the whole stream", None),
+    ("array_start of item 0 +8", lambda d, lay: put(d, HEADER + 24, "<Q", lay.items[0]["array_start"] + 8)),
+    ("key_start of item 1 -1", lambda d, lay: put(d, HEADER + DESC + 8, "<Q", lay.items[1]["key_start"] - 1)),
+    ("key 'sequence_length' altered", lambda d, lay: put(d, lay.by_key["sequence_length"]["key_start"], "<B", ord("t"))),
+    ("key 'uuid' altered", lambda d, lay: put(d, lay.by_key["uuid"]["key_start"] + 3, "<B", ord("e"))),
+    ("type of sequence_length = float32", lambda d, lay: put(d, HEADER + lay.by_key["sequence_length"]["j"] * DESC, "<B", 8)),
+    ("sequence_length = NaN", lambda d, lay: put(d, lay.by_key["sequence_length"]["array_start"], "<Q", 0x7FF8000000000000)),
+    ("sequence_length = 0", lambda d, lay: put(d, lay.by_key["sequence_length"]["array_start"], "<Q", 0)),
+    ("format/name altered", lambda d, lay: put(d, lay.by_key["format/name"]["array_start"] + 2, "<B", ord("x"))),
+    ("format/version major = 11", lambda d, lay: put(d, lay.by_key["format/version"]["array_start"], "<I", 11)),
+)
+
+# loaders that can be pointed at an object in the middle of a file: (name, callable(fileobj), reads tables, is ts)
+STREAM_LOADERS = (
+    ("TableCollection.load(fileobj)", lambda f: tskit.TableCollection.load(f), True),
+    ("tskit.load(fileobj)", lambda f: tskit.load(f), True),
+    ("TreeSequence.load(fileobj)", lambda f: tskit.TreeSequence.load(f), True),
+    ("TableCollection.load(_tskit low-level)", lambda f: X._ll_tc(f), True),
+    ("tskit.load(int fd)", lambda f: tskit.load(f.fileno()), True),
+)
+LAZY_STREAM_LOADERS = (
+    ("tskit.load(fileobj,skip_tables)", lambda f: tskit.load(f, skip_tables=True)),
+    ("TableCollection.load(fileobj,skip_reference_sequence)", lambda f: tskit.TableCollection.load(f, skip_reference_sequence=True)),
+    ("TableCollection.load(fileobj,skip_tables,skip_reference_sequence)",
+     lambda f: tskit.TableCollection.load(f, skip_tables=True, skip_reference_sequence=True)),
+    ("tskit.load(fileobj,skip_reference_sequence)", lambda f: tskit.load(f, skip_reference_sequence=True)),
+)
+
+
+def do_stream(ctx, t, data, lay, tc, case):
+    """Three DIFFERENT objects back to back; faults in object 1 or 2: the objects before it still load (and equal what was
+    dumped), the faulty one raises - through the eager loaders reading on from where the previous load stopped, through
+    the lazy (skip_*) loaders positioned at the object's offset, and through a pipe."""
+    rng = t.rng
+    f2 = case["file"] + 1
+    m2, tc2 = make_file(case_rng({"file": f2, "seed": case["seed"], "tier": case["tier"]}), big=f2 % 4 == 0, variant=f2)
+    f3 = case["file"] + 2
+    m3, tc3 = make_file(case_rng({"file": f3, "seed": case["seed"], "tier": case["tier"]}), big=f3 % 4 == 0, variant=f3)
+    objs = [(data, tc), (dump_bytes(tc2), tc2), (dump_bytes(tc3), tc3)]
+    want = [tables_bytes(x[1]) for x in objs]
+
+    def write(stream):
         with open(t.path, "wb") as f:
             f.write(stream)
-        ctx.step(f"stream: object 0 complete, object 1 truncated to {cut} bytes")
-        with open(t.path, "rb") as f:
+
+    def check_prefix(f, nobj, name, fn, what):
+        """load objects 0..nobj-1 from the open stream; False if anything was wrong"""
+        for j in range(nobj):
             ctx.count("stream-loads")
             try:
-                a = tskit.TableCollection.load(f)
+                a = fn(f)
             except Exception as e:  # noqa: BLE001
-                ctx.violation("stream/first-object-rejected", f"first (intact) object of a stream rejected: {e!r}")
+                ctx.violation("stream/intact-object-rejected", f"{name}: object {j} (intact) of a stream rejected: {e!r} [{what}]")
+                return False
+            if tables_bytes(tables_of(a)) != want[j]:
+                ctx.violation("stream/intact-object-differs", f"{name}: object {j} of the stream loaded differently [{what}]")
+                return False
+        return True
+
+    def expect_fault(f, name, fn, what, empty):
+        ctx.count("stream-loads")
+        ctx.count("stream-fault-loads")
+        try:
+            obj = fn(f)
+            if isinstance(obj, (tskit.TreeSequence, tskit.TableCollection)):
+                ctx.violation("stream/faulty-object-accepted", f"{name}: {what}: loaded")
+            else:
+                ctx.violation("loader-returned-non-object/stream", f"{name}: {what}: returned {obj!r}")
+        except EOFError:
+            if not empty:
+                ctx.violation("truncated/eof-for-nonempty-prefix", f"{name}: EOFError for {what}")
+        except Exception:  # noqa: BLE001
+            if empty:
+                ctx.violation("stream/end-of-stream-not-eof", f"{name}: end of stream after complete objects did not raise EOFError [{what}]")
+
+    # 0. the intact stream: all three objects, then end-of-stream, through every eager form
+    whole = b"".join(x[0] for x in objs)
+    write(whole)
+    for name, fn, _ in STREAM_LOADERS:
+        t.step(f"stream: intact 3-object stream; {name}")
+        with open(t.path, "rb") as f:
+            if check_prefix(f, 3, name, fn, "intact stream"):
+                expect_fault(f, name, fn, "end of a 3-object stream", True)
+    # ... and the lazy loaders positioned at each object's offset (they need a seekable file: documented)
+    starts = [0, len(objs[0][0]), len(objs[0][0]) + len(objs[1][0])]
+    lazy_ref = []
+    for j, (d, _) in enumerate(objs):
+        write(d)
+        row = []
+        for name, fn in LAZY_STREAM_LOADERS:
+            with open(t.path, "rb") as f:
+                row.append(tables_bytes(tables_of(fn(f))))
+        lazy_ref.append(row)
+    write(whole)
+    for j in range(3):
+        for li, (name, fn) in enumerate(LAZY_STREAM_LOADERS):
+            t.step(f"stream: lazy load of object {j} at offset {starts[j]}; {name}")
+            ctx.count("stream-loads")
+            ctx.count("stream-lazy-at-offset")
+            with open(t.path, "rb") as f:
+                f.seek(starts[j])
+                try:
+                    got = tables_bytes(tables_of(fn(f)))
+                except Exception as e:  # noqa: BLE001
+                    ctx.violation("stream/lazy-at-offset-rejected", f"{name}: intact object {j} at offset {starts[j]} rejected: {e!r}")
+                    continue
+                if got != lazy_ref[j][li]:
+                    ctx.violation("stream/lazy-at-offset-differs",
+                                  f"{name}: object {j} read at offset {starts[j]} of a 3-object file differs from the same object read from its own file")
+    # 1. truncation of object k
+    k = 0
+    for kobj in (1, 2):
+        d = objs[kobj][0]
+        layk = Layout(d)
+        cuts = sorted({0, 1, 7, 8, 63, 64, 65, layk.keys_start, layk.keys_end, len(d) // 2, len(d) - 37, len(d) - 36, len(d) - 1}
+                      | {rng.randrange(len(d)) for _ in range(10)})
+        head = b"".join(x[0] for x in objs[:kobj])
+        for cut in cuts:
+            if not (0 <= cut < len(d)):
                 continue
-            if tables_bytes(a) != tables_bytes(tc):
-                ctx.violation("stream/first-object-differs", "first object of the stream loaded differently")
-            try:
-                tskit.TableCollection.load(f)
-                ctx.violation("stream/truncated-second-accepted", f"second object truncated to {cut} bytes was loaded")
-            except EOFError:
-                if cut != 0:
-                    ctx.violation("truncated/eof-for-nonempty-prefix", f"EOFError for a second object truncated to {cut} bytes")
-            except Exception:  # noqa: BLE001
-                if cut == 0:
-                    ctx.violation("stream/end-of-stream-not-eof", "end of stream after one object did not raise EOFError")
+            write(head + d[:cut])
+            what = f"object {kobj} truncated to {cut} of {len(d)} bytes after {kobj} complete object(s)"
+            name, fn, _ = STREAM_LOADERS[k % len(STREAM_LOADERS)]
+            k += 1
+            t.step(f"stream: {what}; {name}")
+            with open(t.path, "rb") as f:
+                if check_prefix(f, kobj, name, fn, what):
+                    expect_fault(f, name, fn, what, cut == 0)
+            # lazy read path at the truncated object's offset
+            name, fn = LAZY_STREAM_LOADERS[k % len(LAZY_STREAM_LOADERS)]
+            with open(t.path, "rb") as f:
+                f.seek(len(head))
+                expect_fault(f, name + " at offset", fn, what, cut == 0)
+            # the same bytes through a pipe (non-seekable)
+            if k % 3 == 0 and len(head) + cut < 60000:
+                r, w = os.pipe()
+                try:
+                    os.write(w, head + d[:cut])
+                    os.close(w)
+                    w = None
+                    with os.fdopen(os.dup(r), "rb", buffering=0) as f:
+                        if check_prefix(f, kobj, "TableCollection.load(pipe)", lambda g: tskit.TableCollection.load(g), what):
+                            expect_fault(f, "tskit.load(pipe)", lambda g: tskit.load(g), what, cut == 0)
+                    ctx.count("stream-pipe-loads")
+                finally:
+                    if w is not None:
+                        os.close(w)
+                    os.close(r)
+    # 2. structural / data faults that every read path must refuse, in object 1 (object 2 follows it intact)
+    d1 = objs[1][0]
+    lay1 = Layout(d1)
+    for label, edit in MUST_RAISE_EDITS:
+        bad = put(d1, 16, "<Q", len(whole)) if edit is None else edit(d1, lay1)
+        write(objs[0][0] + bad + objs[2][0])
+        what = f"object 1 of 3 with {label}"
+        name, fn, _ = STREAM_LOADERS[k % len(STREAM_LOADERS)]
+        k += 1
+        t.step(f"stream: {what}; {name}")
+        with open(t.path, "rb") as f:
+            if check_prefix(f, 1, name, fn, what):
+                expect_fault(f, name, fn, what, False)
+        name, fn = LAZY_STREAM_LOADERS[k % len(LAZY_STREAM_LOADERS)]
+        with open(t.path, "rb") as f:
+            f.seek(starts[1])
+            expect_fault(f, name + " at offset", fn, what, False)
+
+
+def do_large(case, ctx):
+    """Structurally large file: sampled truncation, 16/32-bit-aware descriptor edits, offsets around 2^16."""
+    rng = case_rng(case)
+    tc = X.large_tables(rng)
+    data = dump_bytes(tc)
+    lay = Layout(data)
+    ctx.sig(("large", len(data), tc.sites.num_rows, tc.populations.num_rows), nontrivial=True)
+    ctx.feature("kind:large")
+    assert X.pack(X.parse_items(data)) == data
+    t = Tester(ctx, case, rng)
+    try:
+        t.set_good(data)
+        loaders = ["tskit.load", "TableCollection.load", "TableCollection.load(fileobj)", "tskit.load(skip_tables)",
+                   "TableCollection.load(skip_reference_sequence)", "tskit.load(int fd)", "TableCollection.load(_tskit low-level)",
+                   "tskit.load(pipe fd)", "TableCollection.load(pipe fileobj)", REUSED]
+        st, obj = t.load(data, "tskit.load(pipe fd)")
+        if st != "returned":
+            # the pipe cannot be made big enough on this machine (F_SETPIPE_SZ limit): leave the pipe forms out
+            loaders = [ld for ld in loaders if "pipe" not in ld]
+            ctx.feature("large:pipe-unavailable")
+        orig = baseline(ctx, t, data, loaders)
+        if orig is None:
+            return
+        big = [it for it in lay.items if it["nbytes"] > 60000]
+        ctx.feature("large:arrays-over-60000-bytes", len(big))
+        # truncation: every array boundary +-1, sizes around powers of two, a few random ones
+        cuts = {0, 1, 63, 64, lay.keys_start, lay.keys_end, len(data) - 1, len(data) - 36, len(data) - 37}
+        for it in lay.items:
+            for dlt in (-1, 0, 1):
+                cuts.add(it["array_start"] + dlt)
+                cuts.add(it["array_start"] + it["nbytes"] + dlt)
+        for p in (4096, 8192, 65535, 65536, 65537, 131072, 262144, 524288, 1048576):
+            for dlt in (-1, 0, 1):
+                cuts.add(p + dlt)
+        for it in big:
+            cuts.add(it["array_start"] + 65536)
+            cuts.add(it["array_start"] + it["nbytes"] - 65536)
+            cuts.add(it["array_start"] + it["nbytes"] // 2)
+        cuts |= {rng.randrange(len(data)) for _ in range(20)}
+        for k, n in enumerate(sorted(c for c in cuts if 0 <= c < len(data))):
+            loader = loaders[k % len(loaders)]
+            t.step(f"large: truncate to {n} of {len(data)} bytes; {loader}")
+            st, obj = t.load(data[:n], loader)
+            ctx.count("truncations")
+            ctx.count("large-truncations")
+            if st == "returned":
+                ctx.violation("truncated-accepted/large/" + lay.classify(n)[0], f"{loader} loaded a {n}-byte prefix of a {len(data)}-byte file")
+            elif n > 0 and isinstance(obj, EOFError):
+                ctx.violation("truncated/eof-for-nonempty-prefix", f"{loader} raised EOFError for a non-empty {n}-byte prefix")
+        # descriptor edits that a 16- or 32-bit intermediate would not notice
+        edits = []
+        for it in big:
+            base = HEADER + it["j"] * DESC
+            for fld, o, cur in (("array_start", 24, it["array_start"]), ("array_len", 32, it["array_len"])):
+                for v in (cur & 0xFFFF, cur + 65536, cur - 65536, cur + 2 ** 32, cur ^ 0x10000, cur - 1, cur + 1):
+                    if v != cur and v >= 0:
+                        edits.append((base + o, v, f"{fld} of {it['key']} {cur}->{v}"))
+        for v in (lay.file_size & 0xFFFF, lay.file_size & 0xFFFFF, lay.file_size + 65536, lay.file_size - 65536, lay.file_size + 2 ** 32):
+            if v != lay.file_size:
+                edits.append((16, v, f"file_size {lay.file_size}->{v}"))
+        for k, (off, v, desc) in enumerate(edits):
+            loader = loaders[k % len(loaders)]
+            t.step(f"large: {desc}; {loader}")
+            newdata = put(data, off, "<Q", v)
+            st, obj = t.load(newdata, loader)
+            ctx.count("arith-edits")
+            ctx.count("large-arith-edits")
+            if st == "returned":
+                on_structural_accept(ctx, t, lay, off, "arith", obj, loader, orig, desc, data, newdata)
+        # entries of the big offset columns around the 16-bit limit
+        k = 0
+        for it in big:
+            if not it["key"].endswith("_offset"):
+                continue
+            size = TYPE_SIZE[it["type"]]
+            n = it["array_len"]
+            dl = lay.by_key[it["key"][:-7]]["array_len"]
+            for idx in sorted({0, 1, 65535, 65536, 65537, n - 2, n - 1} & set(range(n))):
+                off = it["array_start"] + idx * size
+                cur = int.from_bytes(data[off:off + size], "little")
+                for v in (cur + 1, cur - 1, cur & 0xFFFF, cur + 65536, 0, dl, dl + 1, 2 ** 31, 2 ** 32 - 1):
+                    if v == cur or not (0 <= v < (1 << (8 * size))):
+                        continue
+                    newdata = data[:off] + v.to_bytes(size, "little") + data[off + size:]
+                    loader = loaders[k % len(loaders)]
+                    k += 1
+                    desc = f"entry {idx} of {it['key']} ({n} entries, data length {dl}) {cur}->{v}"
+                    t.step(f"large: {desc}; {loader}")
+                    st, obj = t.load(newdata, loader)
+                    ctx.count("offset-edits")
+                    ctx.count("large-offset-edits")
+                    if st == "returned":
+                        why = well_formed(t, obj, loader, large=True)
+                        ctx.count("data-accepted-wellformed-checks")
+                        if why:
+                            ctx.violation(f"data-accepted-malformed/{it['key']}", f"{loader}: {desc}: {why}")
+    finally:
+        t.close()
